@@ -73,7 +73,8 @@ def tlc(sdir, module, cfg, workers=1, timeout=1800, heap="4g", extra=None, const
             fh.write("\nCONSTANTS\n")
             for k, v in consts.items():
                 fh.write("  %s = %s\n" % (k, v))
-    jopts = ["-XX:+UseParallelGC", "-Xmx" + heap, "-Xss512m"]
+    # (TLC creates a directory tlc-<n> under java.io.tmpdir at every start and leaves it behind: keep it inside the scratch directory)
+    jopts = ["-XX:+UseParallelGC", "-Xmx" + heap, "-Xss512m", "-Djava.io.tmpdir=" + wd]
     if depthfirst:
         jopts.append("-Dtlc2.tool.queue.IStateQueue=StateDeque")
     if jvm:
